@@ -68,27 +68,13 @@ Theorem C17_targets_nodup :
   (exists cs, parse_all puncts targets_en = Some cs /\ NoDup cs) /\
   (exists cs, parse_all puncts targets_en_rebank = Some cs /\ NoDup cs) /\
   (exists cs, parse_all puncts targets_ja = Some cs /\ NoDup cs).
-Proof.
-  repeat split.
-  - destruct (parse_all puncts targets_en) as [cs|] eqn:E; [|vm_compute in E; discriminate].
-    exists cs. split; [reflexivity|]. apply nodupb_ok. revert E. vm_compute. intros E. inversion E. reflexivity.
-  - destruct (parse_all puncts targets_en_rebank) as [cs|] eqn:E; [|vm_compute in E; discriminate].
-    exists cs. split; [reflexivity|]. apply nodupb_ok. revert E. vm_compute. intros E. inversion E. reflexivity.
-  - destruct (parse_all puncts targets_ja) as [cs|] eqn:E; [|vm_compute in E; discriminate].
-    exists cs. split; [reflexivity|]. apply nodupb_ok. revert E. vm_compute. intros E. inversion E. reflexivity.
-Qed.
+Proof. repeat split; apply inv_nodupb_ok; vm_compute; reflexivity. Qed.
 
 (* every distinct category of cat_dict.en is, as a value, a member of targets.en: the dictionary never raises KeyError there *)
 Theorem C17_dict_subset_targets : exists inv, parse_all puncts targets_en = Some inv /\
   forall e, In e cat_dict_en_entries ->
     exists ts c, entry_toks targets_en e = Some ts /\ parse_toks ts = Some c /\ In c inv.
-Proof.
-  destruct (parse_all puncts targets_en) as [inv|] eqn:E; [|vm_compute in E; discriminate].
-  exists inv. split; [reflexivity|].
-  assert (H : forallb (entry_in puncts targets_en inv) cat_dict_en_entries = true).
-  { revert E. vm_compute. intros E. inversion E. reflexivity. }
-  intros e He. rewrite forallb_forall in H. exact (entry_in_ok puncts targets_en inv e (H e He)).
-Qed.
+Proof. apply dict_inb_ok. vm_compute. reflexivity. Qed.
 
 (* ---- non-vacuity: a two-sentence document, a dictionary with one known and one absent word ---- *)
 Definition cS := Atom [83%N] FNone. Definition cN := Atom [78%N] FNone. Definition cNP := Atom [78%N;80%N] FNone.
